@@ -861,7 +861,20 @@ RUNNERS = {"K": run_kani, "H": run_smt}
 # ----------------------------------------------------------------------------
 # evidence
 
-LEVEL = {"C11": "other", "C12": "other", "C04": "other"}  # prop -> level (default model_checking)
+def _levels():
+    """prop -> level, read from MANIFEST.json so that the evidence is always a record for the level claimed there"""
+    import json
+    lv = {"C11": "other", "C12": "other", "C04": "other", "C09": "other", "C16": "fault_enumeration"}
+    try:
+        m = json.load(open(os.path.join(K.VERIF, "MANIFEST.json")))
+        for c in m.get("checks", []):
+            lv[c["property_id"]] = c["level_claimed"]["category"]
+    except Exception:
+        pass
+    return lv
+
+
+LEVEL = _levels()  # default model_checking
 
 
 def evidence(prop, tier, seed, obls, results, summ):
